@@ -35,6 +35,7 @@ class TooLarge(Exception):
 
 
 _ENG = None
+ARRAY_CTX = [False]   # True while an elementwise array operation evaluates its scalar kernel
 
 
 def eng():
@@ -72,6 +73,8 @@ class Engine(object):
         self.deadline = None
         self.bound_exceeded = []
         self.max_cex = 4
+        self.concretize_divisors = False
+        self.uf_division = False
 
     # -- exploration ---------------------------------------------------------
     def explore(self, fn, deadline=None):
@@ -123,6 +126,7 @@ class Engine(object):
         self.path_forked = len(prefix) > 0
         self.path_notes = {}
         self.prefer = []
+        self.decided = {}
 
     # -- solver helpers ------------------------------------------------------
     def _check(self, *assumptions):
@@ -172,6 +176,10 @@ class Engine(object):
             return True
         if z3.is_false(term):
             return False
+        tid = term.get_id()
+        hit = self.decided.get(tid)
+        if hit is not None:
+            return hit[0]
         if self.pos < len(self.prefix):
             d = self.prefix[self.pos]
             self.pos += 1
@@ -179,6 +187,7 @@ class Engine(object):
             side = d[1]
             self.solver.add(term if side else z3.Not(term))
             self.decisions.append(d)
+            self.decided[tid] = (side, term)
             return side
         self.stats.inc('branches')
         v = self._eval_bool(term)
@@ -198,6 +207,7 @@ class Engine(object):
         self.solver.add(term if v else z3.Not(term))
         self.decisions.append(('b', v))
         self.pos += 1
+        self.decided[tid] = (v, term)
         return v
 
     def concretize(self, term, cap=None):
@@ -205,12 +215,17 @@ class Engine(object):
         term = z3.simplify(term)
         if z3.is_int_value(term):
             return term.as_long()
+        tid = term.get_id()
+        hit = self.decided.get(tid)
+        if hit is not None:
+            return hit[0]
         if self.pos < len(self.prefix):
             d = self.prefix[self.pos]
             self.pos += 1
             assert d[0] == 'c', ('replay divergence', d)
             self.solver.add(term == d[1])
             self.decisions.append(d)
+            self.decided[tid] = (d[1], term)
             return d[1]
         cap = cap or self.conc_cap
         self.stats.inc('concretizations')
@@ -242,6 +257,7 @@ class Engine(object):
         self.solver.add(term == v0)
         self.decisions.append(('c', v0))
         self.pos += 1
+        self.decided[tid] = (v0, term)
         return v0
 
     # -- assumptions and obligations ------------------------------------------
@@ -597,13 +613,27 @@ class _Num(Sym):
             return _mk(kind, ta - tb, dt)
         if op == 'mul':
             return _mk(kind, ta * tb, dt)
+        if op in ('truediv', 'floordiv', 'mod') and _ENG is not None and _ENG.uf_division and ARRAY_CTX[0] \
+                and (not (z3.is_int_value(z3.simplify(tb)) or z3.is_rational_value(z3.simplify(tb)))
+                     or (kind == 'r' and op != 'truediv')):
+            # division by a symbolic value as an uninterpreted function (sound over-approximation)
+            if kind == 'i' and op != 'truediv':
+                f = z3.Function(op + '_ii', z3.IntSort(), z3.IntSort(), z3.IntSort())
+                return _mk('i', f(ta, tb), dt)
+            if kind == 'i':
+                ta, tb = z3.ToReal(ta), z3.ToReal(tb)
+            f = z3.Function(op + '_rr', z3.RealSort(), z3.RealSort(), z3.RealSort())
+            fdt = dt if (dt is None or dt.kind == 'f') else _np.dtype('float64')
+            return SymReal(f(ta, tb), fdt if op == 'truediv' else dt)
         if op == 'truediv':
             if kind == 'i':
-                if not z3.is_int_value(z3.simplify(tb)) and not z3.is_int_value(z3.simplify(ta)):
+                if _ENG.concretize_divisors and not z3.is_int_value(z3.simplify(tb)) \
+                        and not z3.is_int_value(z3.simplify(ta)):
                     # symbolic / symbolic: concretise the integer divisor (keeps arithmetic linear)
                     tb = z3.IntVal(_ENG.concretize(tb))
                 ta, tb = z3.ToReal(ta), z3.ToReal(tb)
-            elif z3.is_app_of(tb, z3.Z3_OP_TO_REAL) and not z3.is_rational_value(z3.simplify(ta)) \
+            elif _ENG.concretize_divisors and z3.is_app_of(tb, z3.Z3_OP_TO_REAL) \
+                    and not z3.is_rational_value(z3.simplify(ta)) \
                     and not z3.is_int_value(z3.simplify(tb.arg(0))):
                 tb = z3.ToReal(z3.IntVal(_ENG.concretize(tb.arg(0))))
             if z3.is_true(z3.simplify(tb == 0)):
@@ -633,7 +663,13 @@ class _Num(Sym):
                 for _ in range(tbs.numerator_as_long()):
                     r = r * ta
                 return SymReal(r, dt)
-            raise Inconclusive('unsupported symbolic power')
+            # anything else: an uninterpreted function (sound over-approximation; a counterexample
+            # that depends on it will not replay and is then reported as inconclusive)
+            if kind == 'i':
+                f = z3.Function('pow_ii', z3.IntSort(), z3.IntSort(), z3.IntSort())
+                return _mk('i', f(ta, tb), dt)
+            f = z3.Function('pow_rr', z3.RealSort(), z3.RealSort(), z3.RealSort())
+            return SymReal(f(ta, tb), dt)
         if op == 'lt':
             return SymBool(ta < tb)
         if op == 'le':
